@@ -6,6 +6,10 @@ ROOT = os.path.dirname(os.path.dirname(os.path.abspath(__file__)))
 
 # property id -> (technique, level text, level note, design ref)
 CHECKS = {
+ "C07": ("static effect/placement analysis: emission context of every user-function call (USER-FN-CONTEXT) and go statement (GO-RECOVER) from the subscribe-closure model; structural checks of the core recover points (CORE-RECOVER); error-result discipline (ERR-RESULT-USED); Unwrap table (UNWRAP); CFG lock pairing on all functions (LOCK-PAIRING)",
+         "Static discipline check: decides, for every operator, in which kind of place each user-supplied function runs and whether a panic there becomes an Error notification (subscribe body, next slot, guarded goroutine) or can only reach the hook / crash the process (error/complete slots, timer callbacks, bare goroutines); that the recover points of observableImpl/observerImpl exist and wrap the right calls; that returned errors are emitted and do not fall through; that no function exits holding a lock. Five genuine by-design violations are recorded as known findings. Does not inject faults.",
+         "Trusted: lo.TryCatchWithErrorValue recovers; the notion of 'user-supplied' = function parameters of exported API functions (parameters of unexported helpers that only receive library literals are excluded, decided from the call sites).",
+         "DESIGN.md section 4, C07"),
  "C03": ("static ownership analysis: per subscribe closure a resource graph (subscribe-site results, composite subscriptions, timers, goroutines and their stop channels) checked for must-release by the teardown chain (RELEASE); CFG/lock-set checks of the subscriber's self-unsubscribe, of the teardown registration and of subscriptionImpl's finalizer loop",
          "Static must-release check over all ~176 acquisitions of package ro: each upstream subscription, timer and looping goroutine reaches a node that the operator's teardown unsubscribes/stops/closes (or is awaited), so an operator returning nil instead of its upstream Unsubscribe, a ticker that is not stopped or a goroutine without a stop channel is reported for whichever operator it lands in. Plus structural checks of the three core mechanisms (self-unsubscribe after terminals outside the producer lock; teardown added to the subscriber; finalizers run once, recovered, outside the mutex, re-panic after the loop). Does not explore races.",
          "Trusted: sync.Mutex semantics; upstream observables release their own resources (induction); two one-symbol exemptions (Share's connection-owned upstream subscription, Delay's pending timers) listed in rules/c03.go.",
